@@ -19,11 +19,12 @@ const WELL_KNOWN_TEXT: [&str; 14] = [
     "localhost", "l2tp", "lac", "lns", "cisco", "Cisco Systems, Inc.", "Microsoft", "xl2tpd", "mpd", "0", "1701", "anonymous", "\r\n", "admin",
 ];
 
-fn dictionary() -> &'static (Vec<u64>, Vec<Vec<u8>>) {
-    static D: std::sync::OnceLock<(Vec<u64>, Vec<Vec<u8>>)> = std::sync::OnceLock::new();
+fn dictionary() -> &'static (Vec<u64>, Vec<Vec<u8>>, Vec<String>) {
+    static D: std::sync::OnceLock<(Vec<u64>, Vec<Vec<u8>>, Vec<String>)> = std::sync::OnceLock::new();
     D.get_or_init(|| {
         let mut nums = vec![];
         let mut strs = vec![];
+        let mut idents: Vec<String> = vec![];
         if let Ok(p) = std::env::var("VERIF_DICT_FILE") {
             if let Ok(t) = std::fs::read_to_string(p) {
                 for l in t.lines() {
@@ -37,11 +38,13 @@ fn dictionary() -> &'static (Vec<u64>, Vec<Vec<u8>>) {
                                 strs.push(b);
                             }
                         }
+                    } else if let Some(x) = l.strip_prefix("k ") {
+                        idents.push(x.trim().to_string());
                     }
                 }
             }
         }
-        (nums, strs)
+        (nums, strs, idents)
     })
 }
 
@@ -175,6 +178,29 @@ impl Rng {
             1 if !recent.is_empty() => Some(recent[self.below(recent.len())].to_string().into_bytes()),
             _ => Some(WELL_KNOWN_TEXT[self.below(WELL_KNOWN_TEXT.len())].as_bytes().to_vec()),
         }
+    }
+    /// a value that begins with an AVP header *of its own kind* (attribute `attr`, vendor 0, a length that is the
+    /// value's own, the whole AVP's, or off by a little), or that is a self-describing TLV (type, id, 16-bit length =
+    /// its own size: an LCP packet looks like that)
+    pub fn self_describing(&self, attr: u16, n: usize) -> Option<Vec<u8>> {
+        if n < 6 || !self.chance(1, 10) {
+            return None;
+        }
+        let mut v = self.bytes(n);
+        if self.chance(1, 3) {
+            v[0] = *self.pick(&[1u8, 2, 3, 4, 9]);
+            v[2] = (n >> 8) as u8;
+            v[3] = n as u8;
+            return Some(v);
+        }
+        let l = *self.pick(&[n, n, n + 6, n + 1, n.saturating_sub(1), 6, 1023, n.saturating_sub(6)]);
+        v[0] = ((((l >> 8) & 3) as u8) << 6) | *self.pick(&[1u8, 1, 0]);
+        v[1] = l as u8;
+        v[2] = 0;
+        v[3] = 0;
+        v[4] = (attr >> 8) as u8;
+        v[5] = attr as u8;
+        Some(v)
     }
     /// octets that look like something else: a control or data flag word, an AVP header announcing the rest, the
     /// image of a number drawn lately, all-equal octets
@@ -345,7 +371,13 @@ pub fn gen_avp_kind(r: &Rng, kind: &str, big: bool) -> TAvp {
             }
         }
         "ProtocolVersion" => a(vec![(r.next() as u8).to_string(), (r.next() as u8).to_string()]),
-        "TieBreaker" => a(vec![r.u64x().to_string()]),
+        "TieBreaker" => {
+            let v = match r.self_describing(5, 8) {
+                Some(h) => u64::from_be_bytes(h[..8].try_into().unwrap()),
+                None => r.u64x(),
+            };
+            a(vec![v.to_string()])
+        }
         "Q931CauseCode" => {
             let adv = if r.chance(1, 2) {
                 "-".to_string()
@@ -375,12 +407,23 @@ pub fn gen_avp_kind(r: &Rng, kind: &str, big: bool) -> TAvp {
         }
         k if BYTE_KINDS.contains(&k) => {
             let l = var_len(r, 1017, big);
-            let v = r.lookalike(l).or_else(|| r.known_text()).unwrap_or_else(|| r.bytes(l));
+            let attr = crate::ops::attr_of_kind(k).unwrap_or(0);
+            let v = r.self_describing(attr, l).or_else(|| r.lookalike(l)).or_else(|| r.known_text()).unwrap_or_else(|| r.bytes(l));
             a(vec![hex(&v)])
         }
         k if STR_KINDS.contains(&k) => {
             let l = var_len(r, 1017, big);
-            let v = r.known_text().unwrap_or_else(|| utf8(r, l));
+            let attr = crate::ops::attr_of_kind(k).unwrap_or(0);
+            // a header look-alike of fewer than 256 octets is ASCII control characters: still text
+            let v = match r.self_describing(attr, l.min(200)) {
+                Some(h) if l >= 6 => {
+                    let mut t: Vec<u8> = h[..6].to_vec();
+                    t[0] &= 0x3f;
+                    t.extend(utf8(r, l.min(200) - 6 + 1));
+                    if std::str::from_utf8(&t).is_ok() { t } else { utf8(r, l) }
+                }
+                _ => r.known_text().unwrap_or_else(|| utf8(r, l)),
+            };
             a(vec![hex(&v)])
         }
         "Hidden" => {
@@ -453,9 +496,26 @@ pub fn gen_control(r: &Rng, max_avps: usize, big: bool) -> TMsg {
         if i == 0 {
             avps.push(gen_avp_kind(r, "MessageType", false));
         } else if i >= 2 && r.chance(1, 10) {
-            // the same AVP again (same kind, same value), next to or away from the first
+            // the same AVP again (same kind, same value), next to or away from the first — or the same value under
+            // another kind of the same shape (two LCP CONFREQs with the same octets, two equal speeds)
             let j = 1 + r.below(i - 1);
-            let dup = TAvp::new(&avps[j].kind, avps[j].args.clone());
+            let src_kind: &str = &avps[j].kind.clone();
+            let class: Option<&[&str]> = if BYTE_KINDS.contains(&src_kind) {
+                Some(&BYTE_KINDS)
+            } else if STR_KINDS.contains(&src_kind) {
+                Some(&STR_KINDS)
+            } else if U32_KINDS.contains(&src_kind) {
+                Some(&U32_KINDS)
+            } else if U16_KINDS.contains(&src_kind) {
+                Some(&U16_KINDS)
+            } else {
+                None
+            };
+            let kind = match class {
+                Some(c) if r.chance(1, 2) => (*r.pick(c)).to_string(),
+                _ => avps[j].kind.clone(),
+            };
+            let dup = TAvp::new(&kind, avps[j].args.clone());
             avps.push(dup);
         } else {
             avps.push(gen_avp(r, big && r.chance(1, 4)));
@@ -471,7 +531,25 @@ pub fn data_header_len(len: bool, nsnr: bool, off: bool) -> usize {
 pub fn gen_data(r: &Rng, with_offset: bool) -> TMsg {
     let dl = *r.pick(&[1usize, 1, 2, 3, 16, 255, 256, 1400]);
     let dl = if r.chance(1, 3) { 1 + r.below(40) } else { dl };
-    let data = r.bytes(dl);
+    let mut data = r.bytes(dl);
+    if dl >= 8 && r.chance(1, 6) {
+        // a PPP frame as a tunnel carries it: optional address/control ff 03, protocol, then code, id, 16-bit length
+        // = from the code octet to the end (LCP / IPCP / authentication packets are built like that)
+        let mut f: Vec<u8> = if r.chance(1, 2) { vec![0xff, 0x03] } else { vec![] };
+        let protos: [[u8; 2]; 6] = [[0xc0, 0x21], [0xc0, 0x21], [0xc0, 0x23], [0xc2, 0x23], [0x80, 0x21], [0x00, 0x21]];
+        let pr: [u8; 2] = *r.pick(&protos);
+        f.extend_from_slice(&pr);
+        let body = dl.saturating_sub(f.len());
+        if body >= 4 {
+            f.push(1 + r.below(12) as u8);
+            f.push(r.next() as u8);
+            let l = if r.chance(1, 8) { body + 1 } else { body };
+            f.push((l >> 8) as u8);
+            f.push(l as u8);
+            f.extend(r.bytes(body - 4));
+            data = f;
+        }
+    }
     let has_len = r.chance(1, 2);
     let nsnr = if r.chance(1, 2) { Some((r.u16x(), r.u16x())) } else { None };
     let off = if with_offset && r.chance(1, 2) { Some(*r.pick(&[0usize, 0, 1.min(dl - 1), dl - 1, r.below(dl)]) as u16) } else { None };
@@ -890,6 +968,172 @@ pub fn big_controls(r: &Rng) -> Vec<TMsg> {
         v.push(TMsg::Control { len: (12 + size) as u16, tid: r.u16x(), sid: r.u16x(), ns: r.u16x(), nr: r.u16x(), avps });
     }
     v
+}
+
+/// What the changed source singles out, in combination.  `nums` / `texts`: the literals that are new in /repo's sources
+/// (empty on the unchanged tree, where three well-known texts keep the stream alive at a small size).  Vendor-specific
+/// records with every new number as vendor id × attribute number × value length, M set and clear, behind every message
+/// type; text and octet-string AVPs carrying every new text — alone, NUL-terminated, next to a value of zeros — in pairs
+/// of kinds, with lengths that make the message end at every residue modulo 4; each as `op` lines.
+pub fn dictionary_cases(r: &Rng) -> Vec<Vec<u8>> {
+    let d = dictionary();
+    let mut images: Vec<Vec<u8>> = vec![];
+    let nums: Vec<u16> = {
+        let mut v: Vec<u16> = d.0.iter().filter(|x| **x <= 0xFFFF).map(|x| *x as u16).collect();
+        v.sort();
+        v.dedup();
+        v.truncate(24);
+        v
+    };
+    if !nums.is_empty() {
+        let mut lens: Vec<usize> = vec![0, 1, 2, 3, 4, 8];
+        lens.extend(nums.iter().filter(|x| **x <= 64).map(|x| *x as usize));
+        lens.sort();
+        lens.dedup();
+        let mts: Vec<u16> = vec![1, 2, 3, 4, 6, 7, 8, 9, 10, 11, 12, 14, 15, 16];
+        let many = nums.len() * nums.len() * lens.len() > 3000;
+        for v in nums.iter().chain([0u16].iter()) {
+            for attr in nums.iter() {
+                for l in lens.iter() {
+                    for fl in [0u8, 1] {
+                        let rec = record(fl, *v, *attr, &r.bytes(*l));
+                        let pick: Vec<u16> = if many { vec![*r.pick(&mts), 10] } else { mts.clone() };
+                        for mt in pick {
+                            let mtrec = record(1, 0, 0, &mt.to_be_bytes());
+                            images.push(assemble(0x1320, r.u16x(), r.u16x(), r.u16x(), r.u16x(), &[mtrec, rec.clone()]));
+                        }
+                    }
+                }
+            }
+        }
+    }
+    let mut texts: Vec<Vec<u8>> = d.1.iter().filter(|t| t.len() <= 64).cloned().collect();
+    texts.truncate(12);
+    let full = !texts.is_empty();
+    if !full {
+        texts = vec![b"Cisco Systems, Inc.".to_vec(), b"Microsoft".to_vec(), b"localhost".to_vec()];
+    }
+    let kinds: Vec<&str> = if full { BYTE_KINDS.iter().chain(STR_KINDS.iter()).cloned().collect() } else { vec!["HostName", "VendorName", "CalledNumber"] };
+    for t in texts.iter() {
+        let mut variants: Vec<Vec<u8>> = vec![t.clone()];
+        let mut z = t.clone();
+        z.push(0);
+        variants.push(z);
+        let mut tail = t.clone();
+        tail.extend_from_slice(b"7");
+        variants.push(tail);
+        for k1 in kinds.iter() {
+            for v1 in variants.iter() {
+                for k2 in kinds.iter() {
+                    for v2 in [vec![0u8], vec![0u8; 3], vec![0x61, 0], vec![0x61, 0x62, 0x63, 0, 0], t.clone(), r.bytes(5)] {
+                        if std::str::from_utf8(&v2).is_err() && STR_KINDS.contains(k2) {
+                            continue;
+                        }
+                        let a1 = crate::ops::attr_of_kind(k1).unwrap();
+                        let a2 = crate::ops::attr_of_kind(k2).unwrap();
+                        let recs = if r.chance(1, 2) {
+                            vec![record(1, 0, 0, &[0, 1]), record(1, 0, a1, v1), record(1, 0, a2, &v2)]
+                        } else {
+                            vec![record(1, 0, 0, &[0, 2]), record(1, 0, a2, &v2), record(1, 0, a1, v1)]
+                        };
+                        images.push(assemble(0x1320, r.u16x(), r.u16x(), r.u16x(), r.u16x(), &recs));
+                    }
+                }
+            }
+        }
+    }
+    images
+}
+
+/// Messages built around the AVP kinds and message types the changed source has newly come to mention (`k` lines of
+/// the dictionary): under each such message type (all fourteen when none is named) every ordered pair of the named
+/// kinds, with values that coincide — the same octets under both kinds, a self-describing TLV (an LCP packet), zeros,
+/// a new text, a new number — and values that do not.  Empty on the unchanged tree.
+pub fn focus_messages(r: &Rng) -> Vec<TMsg> {
+    let d = dictionary();
+    let kinds: Vec<&str> = ALL_KINDS.iter().cloned().filter(|k| d.2.iter().any(|x| x == k)).take(8).collect();
+    if kinds.is_empty() {
+        return vec![];
+    }
+    let names: Vec<String> = MESSAGE_TYPES.iter().map(|m| format!("{:?}", m)).collect();
+    let mut mts: Vec<String> = names.iter().filter(|n| d.2.iter().any(|x| x == *n)).cloned().collect();
+    if mts.is_empty() {
+        mts = names;
+    }
+    let texts: Vec<Vec<u8>> = d.1.iter().take(4).cloned().collect();
+    let nums: Vec<u64> = d.0.iter().take(6).cloned().collect();
+    let values = |r: &Rng, k: &str| -> Vec<Vec<String>> {
+        if BYTE_KINDS.contains(&k) {
+            let mut v: Vec<Vec<u8>> = vec![vec![1, 7, 0, 4], vec![1, 0x21, 0, 8, 5, 6, 0x11, 0x22], vec![2, 1, 0, 6, 0xaa, 0xbb], vec![0; 4], r.bytes(6), vec![1, 2, 0, 9, 1, 4, 5, 0xdc, 0]];
+            v.extend(texts.iter().cloned());
+            v.into_iter().map(|x| vec![hex(&x)]).collect()
+        } else if STR_KINDS.contains(&k) {
+            let mut v: Vec<Vec<u8>> = vec![b"a".to_vec(), b"555-0100".to_vec(), vec![0x61, 0]];
+            v.extend(texts.iter().filter(|t| std::str::from_utf8(t).is_ok()).cloned());
+            v.into_iter().map(|x| vec![hex(&x)]).collect()
+        } else if U32_KINDS.contains(&k) || MASK_KINDS.contains(&k) {
+            let mut v: Vec<u64> = vec![0, 1, 64000, 0xFFFF_FFFF, r.next() & 0xFFFF_FFFF];
+            v.extend(nums.iter().map(|x| x & 0xFFFF_FFFF));
+            v.into_iter().map(|x| vec![x.to_string()]).collect()
+        } else if U16_KINDS.contains(&k) {
+            let mut v: Vec<u64> = vec![0, 1, 0xFFFF, r.next() & 0xFFFF];
+            v.extend(nums.iter().map(|x| x & 0xFFFF));
+            v.into_iter().map(|x| vec![x.to_string()]).collect()
+        } else {
+            (0..3).map(|_| gen_avp_kind(r, k, false).args).collect()
+        }
+    };
+    let mut out = vec![];
+    for mt in mts.iter() {
+        for k1 in kinds.iter() {
+            for k2 in kinds.iter() {
+                let v1s = values(r, k1);
+                let v2s = values(r, k2);
+                for (i, v1) in v1s.iter().enumerate() {
+                    // the same value under both kinds when they take the same shape, and one that differs
+                    let same_shape = v2s.iter().any(|x| x.len() == v1.len());
+                    let mut seconds: Vec<Vec<String>> = vec![];
+                    if same_shape && (BYTE_KINDS.contains(k1) == BYTE_KINDS.contains(k2)) && (STR_KINDS.contains(k1) == STR_KINDS.contains(k2)) {
+                        seconds.push(v1.clone());
+                    }
+                    seconds.push(v2s[i % v2s.len()].clone());
+                    for v2 in seconds {
+                        let avps = vec![TAvp::new("MessageType", vec![mt.clone()]), TAvp::new(k1, v1.clone()), TAvp::new(k2, v2)];
+                        out.push(TMsg::Control { len: 0, tid: r.u16x(), sid: r.u16x(), ns: r.u16x(), nr: r.u16x(), avps });
+                    }
+                }
+            }
+        }
+    }
+    out
+}
+
+/// the dictionary cases as lines of one operation (`dec` with strict and lenient options, `fix`, `sfx` with a trailer, …)
+fn dictionary_stream(r: &Rng, out: &mut Out, op: &str) {
+    let mut imgs = dictionary_cases(r);
+    for m in focus_messages(r) {
+        match op {
+            "rt" => out.push(format!("rt {}", m.render())),
+            "enc" => out.push(format!("enc {} {}", if r.chance(1, 3) { "0a0b0c".to_string() } else { ".".to_string() }, m.render())),
+            _ => {
+                if let Some(img) = encode_msg(&m) {
+                    imgs.push(img);
+                }
+            }
+        }
+    }
+    if op == "rt" || op == "enc" {
+        return;
+    }
+    for img in imgs {
+        match op {
+            "dec" => out.push(format!("dec {} {}", if r.chance(1, 2) { "111" } else { "000" }, hex(&img))),
+            "fix" => out.push(format!("fix {} {}", if r.chance(1, 2) { "111" } else { "000" }, hex(&img))),
+            "sfx" => out.push(format!("sfx 111 {} {}", hex(&img), hex(&r.bytes(1 + r.below(12))))),
+            "c15" => out.push(format!("dec 111 {}", hex(&img))),
+            _ => out.push(format!("{} {}", op, hex(&img))),
+        }
+    }
 }
 
 // ---------------------------------------------------------------- per-property streams
@@ -2744,15 +2988,22 @@ pub fn generate(prop: &str, tier: &str, seed: u64) -> Vec<String> {
     let mut out = Out { lines: vec![] };
     let n = |q: usize, t: usize| if thorough { t } else { q };
     match prop {
-        "C01" => decode_stream(&r, &mut out, n(30000, 1800000), false),
+        "C01" => {
+            decode_stream(&r, &mut out, n(30000, 1800000), false);
+            dictionary_stream(&r, &mut out, "dec");
+        }
         "C02" => {
             decode_stream(&r, &mut out, n(25000, 1200000), true);
             reveal_stream(&r, &mut out, n(3000, 60000));
         }
-        "C03" => c03_stream(&r, &mut out, n(6000, 400000), thorough),
+        "C03" => {
+            c03_stream(&r, &mut out, n(6000, 400000), thorough);
+            dictionary_stream(&r, &mut out, "rt");
+        }
         "C04" => c04_stream(&r, &mut out, n(20000, 1000000)),
         "C05" => {
             decode_stream(&r, &mut out, n(30000, 1500000), true);
+            dictionary_stream(&r, &mut out, "dec");
             // all attribute numbers with a payload every kind accepts
             for x in 0..=65535u32 {
                 if thorough || x < 300 || x % 97 == 0 {
@@ -2767,6 +3018,7 @@ pub fn generate(prop: &str, tier: &str, seed: u64) -> Vec<String> {
                 out.push(format!("enca . {}", t.render()));
             }
             enc_stream(&r, &mut out, n(15000, 900000), false, false);
+            dictionary_stream(&r, &mut out, "enc");
             // the specified octets do not depend on what the writer already holds
             enc_stream(&r, &mut out, n(3000, 60000), true, false);
             for m in MESSAGE_TYPES.iter() {
@@ -2816,7 +3068,10 @@ pub fn generate(prop: &str, tier: &str, seed: u64) -> Vec<String> {
             }
             enc_stream(&r, &mut out, n(8000, 450000), true, true)
         }
-        "C08" => c08_stream(&r, &mut out, n(20000, 400000)),
+        "C08" => {
+            c08_stream(&r, &mut out, n(20000, 400000));
+            dictionary_stream(&r, &mut out, "sfx");
+        }
         "C09" => {
             for (i, t) in systematic_avps(true).iter().enumerate() {
                 if thorough || i % 3 == 0 {
@@ -2889,6 +3144,7 @@ pub fn generate(prop: &str, tier: &str, seed: u64) -> Vec<String> {
                     out.push(format!("fix 111 {}", hex(&img)));
                 }
             }
+            dictionary_stream(&r, &mut out, "fix");
             // large accepted messages, each followed by ordinary ones (what a large message leaves behind)
             for t in big_controls(&r) {
                 if let Some(img) = encode_msg(&t) {
@@ -2921,7 +3177,10 @@ pub fn generate(prop: &str, tier: &str, seed: u64) -> Vec<String> {
         }
         "C13" => reveal_stream(&r, &mut out, n(30000, 600000)),
         "C14" => c14_stream(&r, &mut out, thorough),
-        "C15" => c15_stream(&r, &mut out, n(12000, 750000)),
+        "C15" => {
+            c15_stream(&r, &mut out, n(12000, 750000));
+            dictionary_stream(&r, &mut out, "c15");
+        }
         "C16" => c16_stream(&mut out, thorough),
         "C17" => c17_stream(&r, &mut out, n(500, 10000)),
         "C18" => c18_stream(&r, &mut out, n(15000, 900000)),
@@ -2945,7 +3204,17 @@ pub fn generate(prop: &str, tier: &str, seed: u64) -> Vec<String> {
                 out.lines.extend(ls.into_iter().step_by(step));
             }
         }
-        "C20" => c20_stream(&r, &mut out, n(12000, 750000), thorough),
+        "C20" => {
+            c20_stream(&r, &mut out, n(12000, 750000), thorough);
+            // a vendor-specific record is a single fault whatever numbers it carries: every combination of the numbers
+            // the source has newly come to mention
+            for img in dictionary_cases(&r) {
+                if img.len() >= 28 && (img[22] != 0 || img[23] != 0) {
+                    let v = ((img[22] as u16) << 8) | img[23] as u16;
+                    out.push(format!("sf 111 {} UnsupportedVendorId({})", hex(&img), v));
+                }
+            }
+        }
         _ => {}
     }
     out.lines
